@@ -2717,6 +2717,12 @@ namespace awkward {
               return;
             }
             num_items = stack_pop();
+            if (num_items < 0) {
+              // a negative repetition count would move the input backwards and
+              // size the copy with a negative length
+              current_error_ = util::ForthError::read_beyond;
+              return;
+            }
           }
 
           I format = ~bytecode & READ_MASK;
